@@ -221,12 +221,16 @@ func escapeLit(s string) string {
 }
 
 func suffixes(T string) []prog {
-	return []prog{
+	ps := []prog{
 		{"to", ".to" + T + "()"},
 		{"conv", ".convertsTo" + T + "()"},
 		{"toto", ".to" + T + "().to" + T + "()"},
 		{"strto", ".toString().to" + T + "()"},
 	}
+	if T == "String" { // the generated items are Strings: already of the target type
+		ps = append(ps, prog{"strconv", ".toString().convertsToString()"})
+	}
+	return ps
 }
 
 func genCases(n int, path string) {
